@@ -1,6 +1,7 @@
 #!/bin/bash
 # Runs every claimed check (quick tier unless TIER is set); prints one summary line each.
 cd "$(dirname "$0")/.."
+mkdir -p work evidence
 ids=$(python3 -c "import json;print(' '.join(c['property_id'] for c in json.load(open('MANIFEST.json'))['checks']))")
 for c in ${@:-$ids}; do
   s=$(date +%s)
